@@ -149,16 +149,29 @@ func checkC16(w *Worker) {
 		if envSet[3] {
 			env["HR_MAXDEPTH"] = fmt.Sprint(c16Depth[1])
 		}
-		ref := []string{"-d", effDb, "-l", effLog, "--date-format", effFmt, "--maxdepth", fmt.Sprint(effDepth)}
-		if !effToday.IsZero() {
-			ref = append(ref, "--today", effToday.Format(effFmt))
-		}
 		nsrc := 0
 		for i := 0; i < 5; i++ {
 			nsrc += btoi(flagSet[i]) + btoi(envSet[i]) + btoi(cfgSet[i])
 		}
+		ref := []string{"-d", effDb, "-l", effLog, "--date-format", effFmt, "--maxdepth", fmt.Sprint(effDepth)}
+		if !effToday.IsZero() {
+			ref = append(ref, "--today", effToday.Format(effFmt))
+		}
 		x.Case(fmt.Sprint(cfgLoc, L, flagSet, envSet, cfgSet), nsrc >= 2)
-		for _, cmd := range [][]string{{"--no-color", "csv", "log"}, {"--no-color", "-b", "today", "-e", "today", "reg"}, {"--no-color", "-b", "yesterday", "-e", "today", "reg"}} {
+		// every execution observes the settings through csv log (ISO dates reveal the layout), the two registers
+		// restricted by today, and one further command of a rotating list (every command must see the same settings)
+		others := [][]string{{"report", "quantity"}, {"print"}, {"bal"}, {"stats"}, {"report", "totals"}, {"summary", "today"}, {"report", "unresolved"}, {"csv", "database-resolved"}, {"report", "element-total", "cal"}, {"bal", "-s", "cal"}}
+		cmds := [][]string{{"--no-color", "csv", "log"}, {"--no-color", "-b", "today", "-e", "today", "reg"}, {"--no-color", "-b", "yesterday", "-e", "today", "reg"}}
+		if nsrc <= 2 {
+			// cells with at most two sources set: every further command
+			for _, o := range others {
+				cmds = append(cmds, append([]string{"--no-color"}, o...))
+			}
+		} else {
+			// larger cells: one further command, rotating with the cell
+			cmds = append(cmds, append([]string{"--no-color"}, others[(nsrc+cfgLoc+L)%len(others)]...))
+		}
+		for _, cmd := range cmds {
 			act := appCase{Args: append(append([]string{}, global...), cmd...), Files: files, Env: env, Mod: patchDefault}
 			exp := appCase{Args: append(append([]string{}, ref...), cmd...), Files: files, Mod: patchDefault}
 			if cfgLoc == 1 {
